@@ -7,6 +7,7 @@ package main
 
 import (
 	"fmt"
+	"strings"
 	"time"
 
 	"github.com/paulmach/osm"
@@ -24,7 +25,7 @@ type fault struct {
 	build func() (data []byte, want []osm.Object, wantErr bool)
 }
 
-func faults() []fault {
+func faults(quick bool) []fault {
 	file := pbfscen.File(4, true)
 	blocks := func() ([][]byte, [][]osm.Object) {
 		var bs [][]byte
@@ -49,7 +50,7 @@ func faults() []fault {
 		}
 		return d, w
 	}
-	return []fault{
+	all := []fault{
 		{"reader-side: blob of data block 2 is not a protobuf message", func() ([]byte, []osm.Object, bool) {
 			bs, objs := blocks()
 			b := &file.Blocks[1]
@@ -90,6 +91,23 @@ func faults() []fault {
 			cut := len(bs[0]) + len(bs[1]) + len(bs[2])
 			return d[:cut], w, false
 		}},
+		{"thorough: decoder-side: out-of-range string index in the last data block (the error is followed by the end of input)", func() ([]byte, []osm.Object, bool) {
+			bs, objs := blocks()
+			b := file.Blocks[3]
+			b.Damage = "dense:user-sid-out-of-range"
+			bs[4] = pbfgen.EncodeFileBlock("OSMData", pbfgen.EncodeBlob(b.PrimitiveBlock(), pbfgen.BlobOpts{}), pbfgen.FileBlockOpts{})
+			d, w := join(bs, objs, 4)
+			return d, w, true
+		}},
+		{"fault sequence: decoder-side fault in data block 2, reader-side fault in data block 3", func() ([]byte, []osm.Object, bool) {
+			bs, objs := blocks()
+			b := file.Blocks[1]
+			b.Damage = "way:tag-val-out-of-range"
+			bs[2] = pbfgen.EncodeFileBlock("OSMData", pbfgen.EncodeBlob(b.PrimitiveBlock(), pbfgen.BlobOpts{}), pbfgen.FileBlockOpts{})
+			bs[3] = pbfgen.EncodeFileBlock("OSMData", pbfgen.EncodeBlob(file.Blocks[2].PrimitiveBlock(), pbfgen.BlobOpts{Garbage: true}), pbfgen.FileBlockOpts{})
+			d, w := join(bs, objs, 2)
+			return d, w, true
+		}},
 		{"unexpected block type at data block 3", func() ([]byte, []osm.Object, bool) {
 			bs, objs := blocks()
 			b := &file.Blocks[2]
@@ -98,6 +116,16 @@ func faults() []fault {
 			return d, w, true
 		}},
 	}
+	if !quick {
+		return all
+	}
+	var out []fault
+	for _, f := range all {
+		if !strings.HasPrefix(f.name, "thorough: ") {
+			out = append(out, f)
+		}
+	}
+	return out
 }
 
 func scenario(f fault, procs, bound int) vexplore.Scenario {
@@ -153,7 +181,7 @@ func scenario(f fault, procs, bound int) vexplore.Scenario {
 
 func main() {
 	kit.Main("C06", "fault_enumeration", func(r *kit.Run) {
-		r.Rule("schedule part: 7 faults (reader-side, decoder-side, cuts, block type) in a 4-block file x procs x every schedule with <= D deviations of the instrumented pipeline, filters yield per element; non-vacuous = more than one decoder thread")
+		r.Rule("schedule part: 8 faults (reader-side, decoder-side, cuts, block type, two faults in a row; thorough: plus a fault in the last block) in a 4-block file x procs x every schedule with <= D deviations of the instrumented pipeline, filters yield per element; non-vacuous = more than one decoder thread")
 		r.Assume("vinst's rewrite preserves behaviour; sequentially consistent scheduler")
 		var scs []vexplore.Scenario
 		type pd struct{ p, d int }
@@ -163,7 +191,7 @@ func main() {
 			cfg = []pd{{1, 2}, {2, 3}, {3, 2}, {12, 1}}
 			budget = 30 * time.Minute
 		}
-		for _, f := range faults() {
+		for _, f := range faults(r.Quick()) {
 			for _, c := range cfg {
 				scs = append(scs, scenario(f, c.p, c.d))
 			}
